@@ -640,12 +640,15 @@ class Prog:
         self.mem = []
         self.next_sub = base + 0x1000
         self.steps = 0
+        # all subroutines must fit below the stack area (0x730000): at most 150 blocks of 0x400 bytes
+        self.budget = 150
 
     def block(self, depth, kinds):
         r = self.r
         code = []
         for _ in range(r.randrange(1, 3) if depth > 0 else 1):
-            k = r.choice(kinds) if depth > 0 else 'leaf'
+            k = r.choice(kinds) if depth > 0 and self.budget > 0 else 'leaf'
+            self.budget -= 1
             if k == 'leaf':
                 # clobber a saved register or scratch so that restores are observable
                 reg_no = r.choice([0, 1, 2])
@@ -732,7 +735,8 @@ def gen_c06(tier, seed):
         mem = [(a, resolve(b, a)) for a, b in p.mem]
         psw = psw_of(r.choice(allflags()))
         regs = rnd_regs(r, psw)
-        sp = r.choice([STK, STK + 0x100, 0x7f0000, 0x7ffe00 if depth < 4 else STK, 0x700800])
+        # small nests also run with the stack just above the main program or near the end of RAM; big ones need room
+        sp = r.choice([STK, STK + 0x100, 0x7f0000, 0x7ffe00 if depth < 4 else STK, 0x700800 if p.steps < 40 and len(main) < 0x400 else STK])
         regs[12] = sp
         regs[9] = r.choice([sp - 0x40, STK + 0x4000, r.randrange(1 << 30) * 4])
         regs[10] = r.choice([sp - 0x80, STK + 0x5000, r.randrange(1 << 30) * 4])
